@@ -37,7 +37,7 @@ def thresholds(tier):
 
 def knobs(rng):
   return {"depth": rng.choice([0, 0, 1]), "max_children": 1, "p_struct": 0.3, "p_list": 0.2, "p_ff": 0.3, "max_sigs": rng.choice([3, 5]),
-          "expr_depth": rng.choice([2, 3, 4]), "widths": [1, 2, 3, 4, 5, 7, 8, 9, 16, 31, 32, 33, 63, 64], "avoid_const_ops": True, "p_freevar": 0.25, "p_tmp": 0.3, "p_lambda": 0.2, "p_nested_field": 0.2, "p_list_field": 0.2, "p_for": 0.6, "p_list": 0.4}
+          "expr_depth": rng.choice([2, 3, 4]), "widths": [1, 2, 3, 4, 5, 7, 8, 9, 16, 31, 32, 33, 63, 64], "avoid_const_ops": True, "p_freevar": 0.25, "p_tmp": 0.3, "p_lambda": 0.2, "p_nested_field": 0.2, "p_list_field": 0.2, "p_for": 0.6, "p_list": 0.4, "p_ite_const": 0.4}
 
 
 # ---------------------------------------------------------------------------
@@ -235,7 +235,7 @@ def run_design(sh, case):
       except Exception as e:
         if is_width_error(e):
           W("accepted-block-raises-width-error-in-simulation", error=str(e)[:200]); return
-        sh.inconclusive("twin-simulation-raised:" + type(e).__name__); return
+        sh.inconclusive("twin-simulation-raised:" + type(e).__name__); sh.sample({"twin_sim_error": traceback.format_exc()[-600:], "case": case}); return
   except Exception as e:
     sh.inconclusive("twin-not-buildable:" + type(e).__name__); sh.sample({"twin_error": traceback.format_exc()[-500:]}); return
   finally:
@@ -288,7 +288,7 @@ def gen_nearmiss(rng):
   """-> (source, description).  half of them are exactly well-typed, the others off by one somewhere"""
   w = rng.choice([1, 2, 3, 4, 7, 8, 9, 16, 31, 32, 33, 48, 49, 50, 63, 64, 65, 100])
   d = rng.choice([0, 0, 1, -1]) if w > 1 else rng.choice([0, 1])
-  shape = rng.randrange(9)
+  shape = rng.randrange(14)
   wa, wb, wo = w, w + d, w
   lit_k = rng.choice([w - 1, w, w + 1, w, w])
   lit = rng.choice([(1 << lit_k) - 1, 1 << lit_k, (1 << lit_k) + 1]) if lit_k >= 0 else 1
@@ -302,6 +302,18 @@ def gen_nearmiss(rng):
   elif shape == 5: stmt = f"s.o1 @= s.a {cmp_} {lit}"; wb = w
   elif shape == 6: stmt = f"s.o @= {lit}"; wb = w
   elif shape == 7: stmt = f"s.o @= zext(s.b, {w}) {op} s.a" if d <= 0 else f"s.o @= trunc(s.b, {w}) {op} s.a"; d = 0 if True else d
+  elif shape in (9, 10, 11, 12):
+    # conditional expressions whose branches are integer literals of different sizes (either order), alone or under an operator
+    small = rng.choice([0, 1, 1, 2, 3])
+    l1, l2 = (small, lit) if rng.random() < 0.5 else (lit, small)
+    wb = w
+    if shape == 9: stmt = f"s.o @= s.a {op} ({l1} if s.c else {l2})"
+    elif shape == 10: stmt = f"s.o @= ({l1} if s.c else {l2})"
+    elif shape == 11: stmt = f"s.o1 @= s.a {cmp_} ({l1} if s.c else {l2})"
+    else: stmt = f"s.o @= (s.b if s.c else {lit})" if rng.random() < 0.5 else f"s.o @= ({lit} if s.c else s.b)"
+  elif shape == 13:
+    l = [rng.choice([0, 1, 2, 3]), rng.choice([0, 1, 5]), lit]; rng.shuffle(l); wb = w
+    stmt = f"s.o @= ({l[0]} if s.c else ({l[1]} if s.a[0] else {l[2]}))" if rng.random() < 0.5 else f"s.o @= (({l[0]} if s.a[0] else {l[1]}) if s.c else {l[2]})"
   else: stmt = f"s.o @= concat(s.a[0:{max(1, w // 2)}], s.b[0:{w - max(1, w // 2) if w > 1 else 1}])"
   return NM_TMPL.format(wa=wa, wb=max(1, wb), wo=wo, stmt=stmt), {"shape": shape, "w": w, "delta": d, "literal": lit, "stmt": stmt}
 
@@ -410,9 +422,49 @@ def run_probe_fw2(sh):
   sh.count("probe_designs")
 
 
+FW6_SRC = """from pymtl3 import *
+class NM(Component):
+  def construct(s):
+    K = 1
+    s.a = InPort(4); s.b = InPort(4); s.c = InPort(1); s.o = OutPort(4); s.p = OutPort(4)
+    @update
+    def up():
+      s.o @= s.a - (~(0 if s.c else s.b))
+    @update
+    def up2():
+      s.p @= (K + (s.a if s.c else 15)) | s.b
+"""
+
+
+def run_probe_fw6(sh):
+  """probe stream for the listed finding F-W6: if-expression with a literal branch is a plain int in simulation"""
+  from pymtl3 import DefaultPassGroup
+  from vlib.checks import c03_sv
+  mod = G.load_source(FW6_SRC, "c10q")
+  try:
+    t1 = mod.NM(); t1.elaborate()
+    try:
+      static_table(t1)
+    except Exception as e:
+      sh.count("probe_rejected:" + type(e).__name__); return
+    t2 = mod.NM(); t2.elaborate(); t2.apply(DefaultPassGroup())
+    for c in (0, 1):
+      try:
+        t2.a @= 3; t2.b @= 5; t2.c @= c; t2.sim_eval_combinational()
+      except Exception as e:
+        if is_width_error(e):
+          sh.violation("checker-accepted-a-block-whose-simulation-raises-a-width-error", {"error": str(e)[:160], "source": FW6_SRC, "c": c},
+                       mechanism="ifexp-with-literal-branch-evaluates-to-python-int-in-simulation" if c03_sv.literal_branch_ifexp_meets_int_semantics(FW6_SRC) else None,
+                       case="probe-F-W6")
+    sh.count("probe_designs")
+  finally:
+    G.unload(mod)
+
+
 def run_shard(sh):
   if sh.params["part"] == 0:
     run_probe_fw2(sh)
+    run_probe_fw6(sh)
   for case in range(sh.params["designs"]):
     if sh.only is not None and str(case) != str(sh.only).strip('"'):
       continue
